@@ -131,3 +131,9 @@ def r5(ctx, R):
 def r6(ctx, R):
     from . import c02
     c02.r9(ctx, R)
+
+
+@rule('C05', 'C05.R7', 'the collocation object follows ALL its parameters: where the sweeper / collocation code keeps something from an earlier initialisation, the key it compares covers every parameter the kept object was built from (a key without node_type keeps the old nodes when only the node family changes)', floor=2)
+def r7(ctx, R):
+    from .. import memo
+    memo.check(ctx, R, lambda m: m.relpath in ('pySDC/core/sweeper.py', 'pySDC/core/collocation.py'), 'core/sweeper.py + core/collocation.py')
